@@ -169,6 +169,12 @@ class _Sym:
             return f"{self.args[0]!r} {self.args[1]} 0x{self.args[2]:x}" if self.args[2] >= 0 else f"{self.args[0]!r} {self.args[1]} {self.args[2]}"
         if self.tag == "lookup":
             return f"<table entry for characters {', '.join(str(p - 2) for p in self.args[0])} after the escape letter: {self.args[1]}>"
+        if self.tag == "chr":
+            return f"chr({self.args[0]!r})"
+        if self.tag == "encchr":
+            code = self.args[0]
+            who = repr(code.args[0]) if isinstance(code, _Sym) and code.tag == "ord" else f"chr({code!r})"
+            return f"{who}.encode({self.args[1]!r})"
         if self.tag == "scaled":
             return f"int(<characters {', '.join(str(p - 2) for p in self.args[0])} after the escape letter>, 16) * 16**{self.args[1]}"
         return f"{self.tag}({', '.join(map(repr, self.args))})"
@@ -197,7 +203,7 @@ _PURE_METHODS = {
     set: {"union", "intersection", "copy"},
     int: {"to_bytes", "bit_length"},
 }
-_NOT_NONE_TAGS = {"digits", "int", "bytesof", "buf", "iter", "repr", "slice", "rep", "condrep", "cat", "fmt", "char", "ord", "mask", "codec", "lookup", "scaled", "text", "toktype"}
+_NOT_NONE_TAGS = {"digits", "int", "bytesof", "chr", "encchr", "buf", "iter", "repr", "slice", "rep", "condrep", "cat", "fmt", "char", "ord", "mask", "codec", "lookup", "scaled", "text", "toktype"}
 
 
 def _concrete(v, depth=0) -> bool:
@@ -945,6 +951,7 @@ class _Enc(_Interp):
     def __init__(self, ctx, f, oracle, ptype):
         _Interp.__init__(self, ctx, f, oracle)
         self.param = _Sym("param", (), ptype)
+        self.cfacts = []  # what the path's own tests say about the characters of the argument (see `_admits_byte`)
         ps = params(f.node)
         for p in ps:
             self.env[p] = _Sym("unk", (p,))
@@ -969,6 +976,24 @@ class _Enc(_Interp):
         if set(names) <= {"str", "bytes", "bytearray", "memoryview", "int", "float", "bool", "list", "tuple", "dict", "NoneType"}:
             return False
         return None
+
+    def value_chars(self, v) -> bool:
+        """`v` has the characters of the argument: the argument itself or a decoding of it that maps every ASCII byte to the
+        character with the same code (ascii / latin-1 / utf-8) - so a test on the characters of `v` is a test on the bytes of the argument
+        as far as ASCII values are concerned."""
+        if not isinstance(v, _Sym):
+            return False
+        if v.tag == "param":
+            return v.typ in ("bytes", "str")
+        return v.tag == "codec" and v.args[1] == "decode" and v.args[2] in _ASCII_COMPATIBLE and isinstance(v.args[0], _Sym) and v.args[0].tag == "param" and v.args[0].typ == "bytes"
+
+    def sym_compare(self, op, a, b):
+        # `<constant> in <argument>`: a data fork (values with and without the substring both exist), kept as a fact of the path
+        if isinstance(op, (ast.In, ast.NotIn)) and isinstance(a, (bytes, str)) and a and self.value_chars(b) and type(a).__name__ == b.typ:
+            holds = self.o.decide()
+            self.cfacts.append(("has", a, holds))
+            return holds == isinstance(op, ast.In)
+        return _Interp.sym_compare(self, op, a, b)
 
     def sym_binop(self, e, a, b):
         if isinstance(e.op, ast.Add):
@@ -1055,6 +1080,14 @@ class _Enc(_Interp):
             r = self.codec_step(recv, attr, args, kws)
             if r is not None:
                 return r
+        if attr in _CHAR_CLASSES and not args and not kws and self.value_chars(recv) and recv.typ in _CHAR_CLASSES[attr][0]:
+            # a per-character predicate of CPython on the argument (lemma L13): a data fork - values on both sides exist - whose
+            # outcome is a fact of the path about the class every character belongs to; no value is ever tried
+            holds = self.o.decide()
+            self.cfacts.append(("class", attr, holds))
+            if holds and (attr == "isascii" or recv.typ == "bytes"):
+                self.cfacts.append(("ascii", None, True))  # every byte of the argument is below 0x80 (bytes.<pred> knows ASCII only)
+            return holds
         if isinstance(recv, _Sym) and recv.tag != "unk":
             if attr == "replace" and recv.typ == "str" and len(args) >= 2 and isinstance(args[0], str) and isinstance(args[1], str):
                 if len(args) == 2 and not kws:
@@ -1288,7 +1321,95 @@ def _codec_escaper(x):
     return "ok", desc
 
 
-def _encoder_paths(ctx, f, ptype):
+# Lemma L13 (reference table about CPython's per-character predicates, restricted to the ASCII range): `s.<pred>()` holds iff s is
+# not empty (isascii / isprintable: also when empty) and EVERY character of s satisfies the predicate; the ASCII characters that do
+# are the intervals below (bytes.<pred> knows ASCII only; the str versions also accept characters from 0x80 on, about which nothing
+# is claimed here).  Entry: (types that have the method, intervals).
+_CHAR_CLASSES = {
+    "isascii": (("bytes", "str"), ((0x00, 0x7F),)),
+    "isprintable": (("str",), ((0x20, 0x7E),)),
+    "isalnum": (("bytes", "str"), ((0x30, 0x39), (0x41, 0x5A), (0x61, 0x7A))),
+    "isalpha": (("bytes", "str"), ((0x41, 0x5A), (0x61, 0x7A))),
+    "isdigit": (("bytes", "str"), ((0x30, 0x39),)),
+    "isdecimal": (("str",), ((0x30, 0x39),)),
+    "isnumeric": (("str",), ((0x30, 0x39),)),
+}
+_BACKSLASH, _DQUOTE = 0x5C, 0x22
+
+
+def _in_class(name, b) -> bool:
+    return any(lo <= b <= hi for lo, hi in _CHAR_CLASSES[name][1])
+
+
+def _admits_byte(cfacts, b):
+    """Do the facts of an encoder path admit an argument that contains the ASCII byte `b`?  True / False / None (not worked out).
+
+    Facts: ("class", pred, holds) - outcome of a per-character predicate (lemma L13); ("has", S, holds) - outcome of `S in value`
+    for a constant S of the analysed code.  A positive class fact confines every byte to the class; a negative one needs one byte
+    outside it; `S in value` needs S; `S not in value` forbids S.  Decided on the abstract domain "set of ASCII byte values every
+    byte of the value may take" (an interval set) plus a symbolic witness made of the constants the facts themselves name - nothing
+    of /repo is evaluated: False when `b` is outside a class the path requires or `b` itself is the forbidden substring; True when
+    the witness <required substrings> + <one byte outside each refuted class> + <b> satisfies every fact; None otherwise."""
+    allowed = [(0x00, 0x7F)]
+
+    def ok(x):
+        return any(lo <= x <= hi for lo, hi in allowed)
+
+    pos = [n for k, n, h in cfacts if k == "class" and h]
+    for n in pos:
+        allowed = [(max(lo, a), min(hi, c)) for lo, hi in allowed for a, c in _CHAR_CLASSES[n][1] if max(lo, a) <= min(hi, c)]
+    if not ok(b):
+        return False
+    subs = []
+    for k, S, h in cfacts:
+        if k == "has":
+            codes = list(S) if isinstance(S, bytes) else [ord(ch) for ch in S]
+            if any(c > 0x7F for c in codes):
+                return None
+            subs.append((codes, h))
+    if any(not h and codes == [b] for codes, h in subs):
+        return False
+    witness = []
+    for codes, h in subs:
+        if h:
+            witness += codes
+    for k, n, h in cfacts:
+        if k == "class" and not h:
+            # one byte outside the refuted class that the required classes allow: taken from the interval bounds (lowest bound first)
+            cand = [x for lo, hi in allowed for x in (lo, hi) if not _in_class(n, x)] + \
+                   [x for lo, hi in _CHAR_CLASSES[n][1] for x in (lo - 1, hi + 1) if 0 <= x <= 0x7F and ok(x) and not _in_class(n, x)]
+            if not cand:
+                return None
+            witness.append(cand[0])
+    witness.append(b)
+    if not all(ok(x) for x in witness):
+        return None
+    for codes, h in subs:
+        inside = any(witness[i:i + len(codes)] == codes for i in range(len(witness) - len(codes) + 1))
+        if inside != h:
+            return None
+    return True
+
+
+def _show_facts(cfacts) -> str:
+    out = []
+    for k, x, h in cfacts:
+        if k == "ascii":
+            continue
+        out.append((f"value.{x}()" if h else f"not value.{x}()") if k == "class" else f"{x!r} {'in' if h else 'not in'} value")
+    return " and ".join(out) if out else "no condition"
+
+
+def _identity_decoding(x):
+    """`x` = value.decode(C) with C ascii / latin-1 / utf-8: the characters are the bytes themselves as far as ASCII is concerned -
+    no escaper at all.  Returns C or None."""
+    if isinstance(x, _Sym) and x.tag == "codec" and x.args[1] == "decode" and x.args[2] in _ASCII_COMPATIBLE and _is_raw(x.args[0]) and x.args[0].typ == "bytes":
+        return x.args[2]
+    return None
+
+
+def _encoder_paths_facts(ctx, f, ptype):
+    """[((end kind, value), guessed, facts)] for the paths of the encoder under the assumption on the argument's type."""
     def run(o):
         it = _Enc(ctx, f, o, ptype)
         try:
@@ -1296,9 +1417,15 @@ def _encoder_paths(ctx, f, ptype):
             res = ("return", None)
         except _Flow as fl:
             res = (fl.kind, fl.value)
-        return res, it.guess_at is not None
+        return res, it.guess_at is not None, list(it.cfacts)
 
     return _all_paths(run)
+
+
+def _encoder_paths(ctx, f, ptype):
+    """[((end kind, value), guessed)]: as `_encoder_paths_facts` for callers that do not evaluate the facts of a path - for them a
+    path taken on a test of the argument's characters depends on a condition they do not understand."""
+    return [(res, guessed or bool(facts)) for res, guessed, facts in _encoder_paths_facts(ctx, f, ptype)]
 
 
 def _verdict(ctx, rule, kind, where, text, bad, und, ok_detail, node=None, nontrivial=True):
@@ -1314,8 +1441,8 @@ def _verdict(ctx, rule, kind, where, text, bad, und, ok_detail, node=None, nontr
 def r1(ctx):
     f = ctx.repo.func("c2profile.value_to_string")
     try:
-        pb = _encoder_paths(ctx, f, "bytes")
-        ps = _encoder_paths(ctx, f, "str")
+        pb = _encoder_paths_facts(ctx, f, "bytes")
+        ps = _encoder_paths_facts(ctx, f, "str")
     except _Unsupported as e:
         for text in ("bytes escaper", "quote replacement after escaper", "quote replacement for str", "return f'\"{value}\"'"):
             ctx.undecided("R1", "TAINT", f, text, f"value_to_string is not understood by the path-wise value-flow analysis ({e})")
@@ -1325,7 +1452,27 @@ def r1(ctx):
     q_bad, q_und = [], []
     o_bad, o_und, o_seen = [], [], []
     ret_bad, ret_und = [], []
-    for (kind, val), guessed in pb:
+    def unescaped(codec, guessed, facts):
+        """The bytes value reaches the literal as it is (`codec`: the identity decoding applied, None for none): the conditions of a
+        path that skips the escaper must exclude the backslash byte - a printable ASCII character that starts an escape (or escapes
+        the closing quote) when the literal is read back.  (The double quote is the business of the next obligation.)"""
+        if guessed:
+            esc_und.append("the bytes value reaches the literal without the repr-based escaper on a condition that is not understood")
+            return
+        adm = _admits_byte(facts, _BACKSLASH)
+        real = [x for x in facts if x[0] != "ascii"]
+        if adm is True:
+            esc_bad.append("the bytes value reaches the literal without the repr-based escaper" + (
+                f" on the path taken when {_show_facts(facts)}: these conditions admit a value that contains the backslash byte (0x5c is printable ASCII), which is then written "
+                f"as it is - it starts an escape or escapes the closing quote when the literal is read back; a path that skips the escaper must exclude the backslash byte" if real else ""))
+        elif adm is None:
+            esc_und.append(f"the bytes value reaches the literal without the repr-based escaper when {_show_facts(facts)}; whether these conditions exclude the backslash byte is not worked out")
+        elif codec in ("ascii", "utf-8") and ("ascii", None, True) not in facts:
+            esc_und.append(f"the bytes value is only decoded as {codec} when {_show_facts(facts)}; whether these conditions exclude bytes >= 0x80 (for which the decoding raises) is not worked out")
+        else:
+            esc_seen.append(f"the value itself where the path's conditions ({_show_facts(facts)}) exclude the backslash byte")
+
+    for (kind, val), guessed, facts in pb:
         core = _literal_body(kind, val, guessed, ret_bad, ret_und)
         if core is None:
             continue
@@ -1335,7 +1482,7 @@ def r1(ctx):
         mixed = ns is not None and bool(_peel(ns[2])[0])  # replacements *below* the slice: offsets depend on the data
         model = None  # the escaper whose output the replacements below are applied to, when it is a known one
         if _is_raw(x):
-            (esc_und if guessed else esc_bad).append("the bytes value reaches the literal without the repr-based escaper" + (" on a condition that is not understood" if guessed else ""))
+            unescaped(None, guessed, facts)
         elif ns is None:
             esc_und.append(f"the slice applied to the escaped text is not a constant [a:-b] slice: {_show(x)}")
         else:
@@ -1358,8 +1505,8 @@ def r1(ctx):
                         model = _REPR_PINNED
                 else:
                     esc_und.append(f"argument of repr() is not <constant> + value: {_show(inner.args[0])}")
-            elif _is_raw(inner):
-                (esc_und if guessed else esc_bad).append("the bytes value reaches the literal without the repr-based escaper" + (" on a condition that is not understood" if guessed else ""))
+            elif _is_raw(inner) or _identity_decoding(inner) is not None:
+                unescaped(_identity_decoding(inner), guessed, facts)
             elif _codec_escaper(inner) is not None:
                 status, info = _codec_escaper(inner)
                 if status == "ok" and (lo, hi) != (0, 0):
@@ -1386,8 +1533,13 @@ def r1(ctx):
             q_und.append(f"replacements are applied before the delimiters are sliced off: {_show(x)}")
         elif guessed:
             q_und.append("a path on a condition that is not understood returns the escaped text without the double-quote replacement")
+        elif _admits_byte(facts, _DQUOTE) is False:
+            pass  # the conditions of the path exclude the double quote (neither escaper produces one): nothing to replace
+        elif _admits_byte(facts, _DQUOTE) is None:
+            q_und.append(f"a path returns the text without the double-quote replacement when {_show_facts(facts)}; whether these conditions exclude the double quote is not worked out")
         else:
-            q_bad.append("a bytes-derived value can reach the return without the double-quote replacement: " + _show(val))
+            q_bad.append("a bytes-derived value can reach the return without the double-quote replacement: " + _show(val)
+                         + (f" (path taken when {_show_facts(facts)}, which admits a value with a double quote)" if [x for x in facts if x[0] != "ascii"] else ""))
         # ---- any other rewriting of the escaped text (repr output is printable ASCII, backslashes only in escape pairs)
         for k, l in enumerate(layers):
             if l.tag != "rep" or l.args[1] == '"':
@@ -1406,13 +1558,14 @@ def r1(ctx):
     if not pb:
         esc_und.append("no path")
     _verdict(ctx, "R1", "TAINT", f, "bytes escaper", esc_bad, esc_und,
-             f"bytes are escaped with {', '.join(dict.fromkeys(esc_seen))}: the constant pins repr() to the single-quote style and the slice strips exactly b' + pin and the closing quote")
+             f"bytes are escaped with {', '.join(dict.fromkeys(esc_seen))}: the constant pins repr() to the single-quote style and the slice strips exactly b' + pin and the closing quote "
+             f"(a path that skips the escaper is taken only under conditions that exclude the backslash byte)")
     _verdict(ctx, "R1", "TAINT", f, "quote replacement after escaper", q_bad, q_und, "on every path the escaped text has `\"` replaced by `\\\"` before it is put between the quotes")
     _verdict(ctx, "R1", "TAINT", f, "\\' un-escape / other rewriting", o_bad, o_und,
              f"replacements applied to the escaped text besides the quote escape: {sorted(set(o_seen))} (\\' -> ' commutes with the quote escape; others cannot match repr output)", nontrivial=False)
 
     s_bad, s_und = [], []
-    for (kind, val), guessed in ps:
+    for (kind, val), guessed, facts in ps:
         core = _literal_body(kind, val, guessed, ret_bad, ret_und)
         if core is None:
             continue
@@ -1426,6 +1579,9 @@ def r1(ctx):
             s_bad.append("double quotes of a str value are only replaced conditionally")
         elif any(l.tag == "opaque" for l in layers) or guessed or not (isinstance(x, _Sym) and x.tag == "param"):
             s_und.append(f"str path not understood: {_show(val)}")
+        elif _admits_byte(facts, _DQUOTE) is not True:
+            if _admits_byte(facts, _DQUOTE) is None:
+                s_und.append(f"a str value is returned without the double-quote replacement when {_show_facts(facts)}; whether these conditions exclude the double quote is not worked out")
         else:
             s_bad.append("str values can reach the return with unescaped double quotes: " + _show(val))
     _verdict(ctx, "R1", "TAINT", f, "quote replacement for str", s_bad, s_und, "str values get their double quotes escaped on every path")
@@ -1782,6 +1938,10 @@ class _Dec(_Interp):
         if isinstance(v, _Sym) and v.tag == "bytesof":
             for x in v.args[0]:
                 self.events.append(("append", x))
+        elif isinstance(v, _Sym) and v.tag == "encchr":
+            # the bytes a codec gives for ONE character: how many they are depends on the data - kept as one term and judged
+            # by lemma L12 in the rule ("is this exactly the one byte <code>?")
+            self.events.append(("append", v))
         elif isinstance(v, (list, tuple, bytes)):
             for x in v:
                 self.events.append(("append", x))
@@ -1789,7 +1949,7 @@ class _Dec(_Interp):
             self.events.append(("append", _Sym("unk", ("extend",))))
 
     def augassign(self, st, cur, rhs):
-        if isinstance(st.op, ast.Add) and isinstance(cur, _Sym) and cur.tag in ("buf", "unk") and (isinstance(rhs, (list, tuple, bytes)) or isinstance(rhs, _Sym) and rhs.tag == "bytesof"):
+        if isinstance(st.op, ast.Add) and isinstance(cur, _Sym) and cur.tag in ("buf", "unk") and (isinstance(rhs, (list, tuple, bytes)) or isinstance(rhs, _Sym) and rhs.tag in ("bytesof", "encchr")):
             self.extend(rhs)
             return cur
         if isinstance(cur, _Sym) and cur.tag == "buf":
@@ -1898,12 +2058,42 @@ class _Dec(_Interp):
                 if attr == "index":
                     raise _Flow("raise", "ValueError")
                 return -1
+        if attr == "encode":
+            r = self.encoded_char(recv, args, kws)
+            if r is not None:
+                return r
         if self._is_digits(recv) and attr in ("lower", "upper", "casefold") and not args and not kws:
             # case normalisation of the digits: only the spellings of that case remain to be looked up; int() ignores the case
             return _Sym("digits", (recv.args[0], "upper" if attr == "upper" else "lower"), "str")
         return _NOHOOK
 
+    def encoded_char(self, recv, args, kws):
+        """<one character>.encode(<constant codec>) with default error handling: the term encchr(<code of the character>, codec)."""
+        recv = self.resolve(recv)
+        if not isinstance(recv, _Sym):
+            return None
+        if recv.tag == "chr":
+            code = recv.args[0]
+        elif recv.tag == "char":
+            code = _Sym("ord", (recv,))
+        else:
+            return None
+        if len(args) == 1 and not kws:
+            name = args[0]
+        elif not args and set(kws) == {"encoding"}:
+            name = kws["encoding"]
+        elif not args and not kws:
+            name = "utf-8"
+        else:
+            return None
+        name = _codec_name(name)
+        return None if name is None else _Sym("encchr", (code, name))
+
     def sym_function(self, e, name, args, kws):
+        if name == "bytes" and len(args) == 2 and not kws:  # bytes(<one character>, codec) == <one character>.encode(codec)
+            r = self.encoded_char(args[0], [args[1]], {})
+            if r is not None:
+                return r
         if name == "int" and args and isinstance(args[0], _Sym) and args[0].tag == "digits" and len(args) <= 2:
             base = args[1] if len(args) == 2 else kws.get("base", 10)
             if isinstance(base, int):
@@ -1920,6 +2110,10 @@ class _Dec(_Interp):
                 return _Sym("ord", (a,))  # the code of the symbolic character, kept as a term
             if name == "chr" and isinstance(a, _Sym) and a.tag == "ord":
                 return a.args[0]  # lemma: chr(ord(c)) == c
+            if name == "chr" and isinstance(a, _Sym) and a.tag in ("int", "mask", "lookup"):
+                return _Sym("chr", (a,), "str")  # the character with that code, kept as a term
+            if name == "ord" and isinstance(a, _Sym) and a.tag == "chr":
+                return a.args[0]  # lemma L3: ord(chr(n)) == n
             if name == "str" and isinstance(a, _Sym) and a.tag == "char":
                 return a
         return _NOHOOK
@@ -2151,6 +2345,13 @@ def _low_pair(v, want):
                                             K > 255 when n == 2 (x % K == x exactly when 0 <= x < K)."""
     if not isinstance(v, _Sym):
         return False
+    if v.tag == "encchr":
+        one = _one_byte_codec(v.args[1])
+        if one is None:
+            return None
+        # lemma L12: latin-1 gives exactly the byte <code> for a code in 0..255 (the range of a digit pair); utf-8 / ascii never give
+        # the one byte <code> for 0x80 <= code <= 0xff, and the low pair of an escape ranges over all of 0..255
+        return _low_pair(v.args[0], want) if one else False
     if v.tag == "int":
         return v.args == (tuple(want), 16)
     if v.tag == "lookup":
@@ -2183,6 +2384,19 @@ def _low_pair(v, want):
     return None
 
 
+def _one_byte_codec(name):
+    """Lemma L12 (reference facts about three CPython codecs, n a code point): chr(n).encode('latin-1') is the single byte n for
+    0 <= n <= 255 (UnicodeEncodeError above); chr(n).encode('utf-8') is the single byte n only for n < 0x80 - from 0x80 on it is a
+    sequence of two to four bytes (UnicodeEncodeError for surrogates); chr(n).encode('ascii') is the single byte n for n < 0x80 and
+    raises above.  So over a code that ranges over 0..255: True (always exactly the byte <code>), False (not for codes from
+    0x80 on), None (a codec that is not modelled)."""
+    if name == "iso8859-1":
+        return True
+    if name in ("utf-8", "ascii"):
+        return False
+    return None
+
+
 def _is_unknown(v):
     return isinstance(v, _Sym) and v.tag in ("unk", "buf")
 
@@ -2196,6 +2410,12 @@ def _is_code_of(v, pos):
       lemma 2: x % K == x for all 0 <= x <= 255  iff  K > 255 (x % K == x exactly when 0 <= x < K)."""
     if isinstance(v, _Sym) and v.tag == "ord":
         return True if v.args[0] == _char(pos) else None
+    if isinstance(v, _Sym) and v.tag == "encchr":
+        inner = _is_code_of(v.args[0], pos)
+        one = _one_byte_codec(v.args[1])
+        if inner is not True or one is None:
+            return None if inner is True else inner
+        return one  # lemma L12: the characters the iterator delivers have codes 0..255; utf-8 / ascii are the byte <code> only below 0x80
     if isinstance(v, _Sym) and v.tag == "mask":
         inner, op, k = v.args
         r = _is_code_of(inner, pos)
@@ -2208,7 +2428,10 @@ def _is_code_of(v, pos):
 
 
 def _case_value(v, pos, literal):
-    """The appended value in the case "character at `pos` == literal": the term ord(c) is the constant ord(literal) there."""
+    """The appended value in the case "character at `pos` == literal": the term ord(c) is the constant ord(literal) there; so is
+    its encoding by an ASCII-compatible codec when the literal is an ASCII character (lemma L12)."""
+    if isinstance(v, _Sym) and v.tag == "encchr" and _one_byte_codec(v.args[1]) is False and ord(literal) < 0x80 and _is_code_of(v.args[0], pos) is True:
+        return ord(literal)
     return ord(literal) if _is_code_of(v, pos) is True else v
 
 
@@ -2296,7 +2519,9 @@ def r2(ctx):
                         und.append(f"\\{letter} appends {apps[0]!r}: not known to be the value of the low digit pair")
                     elif not _low_pair(apps[0], want):
                         bad.append(f"\\{letter} appends {apps[0]!r}{notes}; required int(<characters {want[0] - 2}, {want[1] - 2} after the escape letter>, 16), the low byte pair"
-                                   + (" (a constant mask / modulus over all the digits gives the low pair only if it keeps bits 0..7 and clears every higher bit: & 0xFF, % 256)" if isinstance(apps[0], _Sym) and apps[0].tag == "mask" else ""))
+                                   + (" (a constant mask / modulus over all the digits gives the low pair only if it keeps bits 0..7 and clears every higher bit: & 0xFF, % 256)" if isinstance(apps[0], _Sym) and apps[0].tag == "mask" else "")
+                                   + (" (lemma L12: a text codec yields the one byte <code> only for latin-1 over a code in 0..255; utf-8 / ascii give two or more bytes or raise "
+                                      "from 0x80 on, so the documented byte value - the code point & 0xFF - is not what is appended)" if isinstance(apps[0], _Sym) and apps[0].tag == "encchr" else ""))
                 else:
                     # not enough characters left: ValueError, nothing appended
                     if p.end == "raise" and p.events[-1][1] == "ValueError" and not p.appends():
@@ -2315,6 +2540,8 @@ def r2(ctx):
             extra = [1 for _, pos, _ in p.reads() if pos >= 1]
             good = None
             if len(apps) == 1:
+                if lit is not None:
+                    apps = [_case_value(apps[0], 0, lit)]
                 good = _is_code_of(apps[0], 0)
                 if lit is not None and not isinstance(apps[0], (_Sym, bool)):
                     good = apps[0] == ord(lit)
@@ -2323,7 +2550,8 @@ def r2(ctx):
             if p.guessed or any(_is_unknown(a) for a in apps) or (len(apps) == 1 and good is None):
                 und.append(f"{who}: path not understood (appends {apps})")
             else:
-                bad.append(f"{who} outside an escape gives {apps}{' and consumes more characters' if extra else ''}{'' if p.end in ('end', 'continue') else ' then ' + p.end} (required: its code ord(c), once)")
+                bad.append(f"{who} outside an escape gives {apps}{' and consumes more characters' if extra else ''}{'' if p.end in ('end', 'continue') else ' then ' + p.end} (required: its code ord(c), once)"
+                           + (" - lemma L12: utf-8 / ascii give the one byte ord(c) only for codes below 0x80" if any(isinstance(a, _Sym) and a.tag == "encchr" for a in apps) else ""))
         if not d.plain_paths:
             und.append("no path for a character other than a backslash")
         bad = list(dict.fromkeys(bad))
